@@ -34,11 +34,15 @@ void h_match_virtual_override() {
   f->_flags = nondet_int(); g->_flags = nondet_int();
   g_ret_equiv = nondet_bool(); g_ret_conv = nondet_bool(); g_params_equiv = nondet_bool();
   bool r = f->match_virtual_override(*g);
-  // [class.virtual]: same name (checked by the caller), parameter-type-list, cv-qualification and ref-qualifier; the
-  // return type equal or covariant.  The virt-specifiers override and final are not part of that.
-  int virt = CPPFunctionType::F_override | CPPFunctionType::F_final;
-  bool same_kind = ((f->_flags ^ g->_flags) & ~virt) == 0;
-  OBL(r == ((g_ret_equiv || g_ret_conv) && same_kind && g_params_equiv), "C10.match_virtual_override: a function overrides a base function exactly if the return type is equal or convertible, the parameter lists are equivalent and the function kinds (const, ref-qualifiers, ...) agree; override and final on either side play no part");
+  // [class.virtual]/2: a member function overrides a base-class virtual function of the same name (checked by the caller) if
+  // parameter-type-list, cv-qualification and ref-qualifier are the same; the return type equal or covariant.  The
+  // virt-specifiers, the exception specification and the way the return type is written are not part of that.  The
+  // remaining flag bits are functions of name and parameters (operator kinds, constructor kinds) and agree when those do.
+  int relevant = CPPFunctionType::F_const_method | CPPFunctionType::F_volatile_method | CPPFunctionType::F_lvalue_method | CPPFunctionType::F_rvalue_method;
+  int irrelevant = CPPFunctionType::F_override | CPPFunctionType::F_final | CPPFunctionType::F_noexcept | CPPFunctionType::F_trailing_return_type;
+  __CPROVER_assume(((f->_flags ^ g->_flags) & ~(relevant | irrelevant)) == 0);
+  bool same_kind = ((f->_flags ^ g->_flags) & relevant) == 0;
+  OBL(r == ((g_ret_equiv || g_ret_conv) && same_kind && g_params_equiv), "C10.match_virtual_override: a function overrides a base function exactly if the return type is equal or convertible, the parameter lists are equivalent and cv- and ref-qualifiers agree; override, final, noexcept and a trailing return type on either side play no part");
   VU_REACHED();
 }
 
